@@ -188,6 +188,84 @@ def replay_composites(run, emits, n, rng):
                                                                                     units=[e["obj"] for e in es], observed=bad[1]))
 
 
+def replay_variants(run, emits, n):
+    """(a) objects built from INTEGER arrays (the spec's data are integers) must transform like their floating-point
+    twins; (b) mixing projective.Transformation and hyperbolic.Isometry: the result has the type of X;
+    (c) an ill-conditioned loxodromic (lambda = 5^6, condition number 2.4e8): A.inv() @ (A @ X) == X"""
+    H = hc.H()
+    from geometry_tools import projective as P
+    seen = set()
+    for e in emits:
+        o, cls = e["obj"], e["obj"]["cls"]
+        k = (cls, json.dumps(o.get("rows")), json.dumps(e["A"]))
+        if k in seen or cls in ("isometry", "hyperplane", "tangent", "segment", "horosphere"):
+            continue
+        seen.add(k)
+        run.case(key=None, action="act_integer_data:" + cls)
+        try:
+            rows = np.array(o["rows"], dtype=np.int64)
+            ctor = {"point": lambda: H.Point(rows[0]), "pair": lambda: H.PointPair(rows), "geodesic": lambda: H.Geodesic(rows),
+                    "polygon": lambda: H.Polygon(rows), "simplex": lambda: P.Simplex(rows), "subspace": lambda: H.Subspace(rows)}[cls]
+            X = ctor()
+            A = H.Isometry(hc.spec_matrix(e["A"]), column_vectors=True)
+            bad = same(A @ X, cls, e["imgA"], type(X), X.shape)
+            if not bad:
+                bad = same(A.inv() @ (A @ X), cls, o, type(X), X.shape)
+        except Exception as ex:
+            bad = ("raised", "%s: %s" % (type(ex).__name__, ex))
+        if bad:
+            run.violation("act_int:%s:%s:%s" % k, "integer_data:" + bad[0], dict(obj=o, A=e["A"], observed=bad[1]))
+    # (b) type of the result when the two transformation classes are mixed
+    isos = [e for e in emits if e["obj"]["cls"] == "isometry"][:12]
+    for e in isos:
+        run.case(key=None, action="mixed_transformation_classes")
+        try:
+            MA, MX = hc.spec_matrix(e["A"]), hc.spec_matrix(e["obj"]["h"])
+            combos = (("Transformation@Isometry", P.Transformation(MA, column_vectors=True), H.Isometry(MX, column_vectors=True)),
+                      ("Isometry@Transformation", H.Isometry(MA, column_vectors=True), P.Transformation(MX, column_vectors=True)),
+                      ("identity(projective)@Isometry", P.identity(n), H.Isometry(MX, column_vectors=True)))
+            bad = None
+            for nm, A, X in combos:
+                R = A @ X
+                want = MA @ MX if "identity" not in nm else MX
+                if type(R) is not type(X):
+                    bad = (nm + ":type", "result is %s, X is %s" % (type(R).__name__, type(X).__name__))
+                elif not hc.mat_proj_close(np.asarray(R.matrix, float).T, want, TOL):
+                    bad = (nm + ":matrix", "%r" % (np.round(np.asarray(R.matrix, float).T, 6).tolist(),))
+                if bad:
+                    break
+        except Exception as ex:
+            bad = ("raised:mixed", "%s: %s" % (type(ex).__name__, ex))
+        if bad:
+            run.violation("mixed:%s:%s" % (json.dumps(e["A"]), json.dumps(e["obj"]["h"])), bad[0], dict(A=e["A"], X=e["obj"]["h"], observed=bad[1]))
+    # (c) ill-conditioned but perfectly invertible isometry: the exact standard loxodromic of parameter 5^6 (spec Lox(15625, 1))
+    p = 15625
+    L = np.eye(n + 1)
+    L[0, 0] = L[1, 1] = (p * p + 1) / (2.0 * p)
+    L[0, 1] = L[1, 0] = (p * p - 1) / (2.0 * p)
+    for e in [e for e in emits if e["obj"]["cls"] in ("point", "polygon", "pair")][:40]:
+        run.case(key=None, action="ill_conditioned_inverse")
+        try:
+            A = H.Isometry(L.copy(), column_vectors=True)
+            A2 = H.Isometry.standard_loxodromic(n, 5.0)
+            for _ in range(5):
+                A2 = A2 @ H.Isometry.standard_loxodromic(n, 5.0)
+            X = build(e["obj"]["cls"], e["obj"])
+            bad = None
+            for nm, T in (("exact lambda=5^6", A), ("standard_loxodromic(5)^6", A2)):
+                back = T.inv() @ (T @ X)
+                # rounding ~ eps * cond(A) = 5e-8: compare at 1e-5
+                pd, rows = np.asarray(back.proj_data, float).reshape(-1, n + 1), np.array(e["obj"]["rows"], float)
+                if not all(hc.proj_close(pd[i], rows[i], 1e-5) for i in range(len(rows))):
+                    bad = ("ill_conditioned.inverse:" + nm, "%r vs %r" % (pd.tolist(), rows.tolist()))
+                    break
+        except Exception as ex:
+            bad = ("raised:ill_conditioned", "%s: %s" % (type(ex).__name__, ex))
+        if bad:
+            run.violation("illcond:%s:%s" % (e["obj"]["cls"], json.dumps(e["obj"]["rows"])), bad[0], dict(obj=e["obj"], observed=bad[1]))
+            break
+
+
 def replay_transformation_histories(run, emits, n):
     """the inverse clause along a HISTORY of the same (composite) transformation object: inv(), in-place
     item assignment, inv() again - A.inv() @ (A @ X) must equal X for the transformation as it is NOW"""
@@ -284,6 +362,7 @@ def run(run, replay=None):
         replay_composites(run, emits, n, rng)
         replay_representation(run, emits, n)
         replay_transformation_histories(run, emits, n)
+        replay_variants(run, emits, n)
         for cls in ("segment", "tangent", "polygon"):
             for e in emits:
                 if e["obj"]["cls"] == cls and e["A"] != e["B"]:
